@@ -253,10 +253,29 @@ func decode(cm map[string]any) (*definition, error) {
 		ErrorUnused: true,
 		Result:      c,
 		TagName:     "",
+		DecodeHook:  stringKeysHook,
 	})
 	err := md.Decode(cm)
 
 	return c, err
+}
+
+// stringKeysHook rejects a nested mapping with a non-string key (1:, true:,
+// ~:) that is about to be decoded into a struct: mapstructure's report of
+// unused keys assumes string keys and panics otherwise.
+func stringKeysHook(_ reflect.Type, to reflect.Type, data any) (any, error) {
+	if to.Kind() != reflect.Struct {
+		return data, nil
+	}
+	if m, ok := data.(map[any]any); ok {
+		for k := range m {
+			if _, ok := k.(string); !ok {
+				return nil, fmt.Errorf("key must be a string: %v", k)
+			}
+		}
+	}
+
+	return data, nil
 }
 
 // merge merges the source DAG into the destination DAG.
